@@ -39,6 +39,9 @@ def gen_case(rng, tier, i):
         add_stats(rng, prog, watch=False)
     if rng.random() < 0.7:
         add_streams(rng, prog)
+        if rng.random() < 0.5:
+            from vlib.proggen import add_simlisteners
+            add_simlisteners(rng, prog, ("WARMUP_EVENT", "TIME_CHANGED_EVENT", "START_EVENT"))
     hist = HIST[i % len(HIST)]
     return {"prog": prog, "hist": hist, "k": rng.randint(1, 5), "cut": rng.randint(0, 40)}
 
